@@ -423,6 +423,24 @@ func twinMain(args []string) int {
 	return 0
 }
 
+// c01Mempool: CheckTx traffic at every call boundary (as in the C07 variants)
+func c01Mempool(w *World, h *History, r *rand.Rand, rep *TwinReport) func(rp *Replica, b, pos int) {
+	pool := c07Probes(w, rand.New(rand.NewSource(r.Int63())))
+	for _, b := range h.Blocks {
+		pool = append(pool, b.Txs...)
+	}
+	rr := rand.New(rand.NewSource(r.Int63()))
+	return func(rp *Replica, b, pos int) {
+		if len(pool) == 0 || rr.Intn(100) >= 60 {
+			return
+		}
+		for i := 0; i < 1+rr.Intn(2); i++ {
+			rp.CheckTx(pool[rr.Intn(len(pool))])
+			rep.ChecksRun++
+		}
+	}
+}
+
 // c07Probes: transactions for CheckTx only
 func c07Probes(w *World, r *rand.Rand) [][]byte {
 	out := [][]byte{}
@@ -564,6 +582,11 @@ func buildVariants(mode string, w *World, h *History, base *Transcript, r *rand.
 			{Name: "restarted-early-node", CrashAt: map[[2]int]bool{{0, 1001}: true}},
 			{Name: "restarted-early-validator-1", NodeVal: &nv, NodeSeed: 4, CrashAt: map[[2]int]bool{{0, 1001}: true}},
 			{Name: "restarted-early-validator-2", NodeVal: &nv2, NodeSeed: 5, CrashAt: map[[2]int]bool{{0, 1001}: true}},
+			// nodes whose mempool connection is busy while the blocks are executed (CheckTx of the history's
+			// own transactions and of never-delivered ones at every call boundary): peers differ in what
+			// their mempools see, never in what the blocks make them compute
+			{Name: "with-mempool-traffic", Checks: c01Mempool(w, h, r, rep)},
+			{Name: "other-validator-with-mempool-traffic", NodeVal: &nv, NodeSeed: 6, Checks: c01Mempool(w, h, r, rep)},
 		}
 	}
 	panic("bad mode")
